@@ -622,6 +622,24 @@ func do_RETURN_VALUE(vm *Vm, arg int32) error {
 	return nil
 }
 
+// Returns the value carried by a StopIteration error: its first
+// argument or None if it has none
+func stopIterationValue(err error) py.Object {
+	var exc *py.Exception
+	switch e := err.(type) {
+	case py.ExceptionInfo:
+		exc, _ = e.Value.(*py.Exception)
+	case *py.Exception:
+		exc = e
+	}
+	if exc != nil {
+		if args, ok := exc.Args.(py.Tuple); ok && len(args) > 0 {
+			return args[0]
+		}
+	}
+	return py.None
+}
+
 // Pops TOS and delegates to it as a subiterator from a generator.
 func do_YIELD_FROM(vm *Vm, arg int32) error {
 
@@ -640,6 +658,10 @@ func do_YIELD_FROM(vm *Vm, arg int32) error {
 		if !py.IsException(py.StopIteration, err) {
 			return err
 		}
+		// The subiterator has finished: replace it on the
+		// stack with the value of the StopIteration which is
+		// the result of the yield from expression
+		vm.SET_TOP(stopIterationValue(err))
 		return nil
 	}
 	// x remains on stack, retval is value to be yielded
